@@ -39,7 +39,7 @@ func (list *List) LPop(count int) ([]string, bool) {
 	elems := []string{}
 	for n := 0; n < count; n++ {
 		if len(list.elements) < 1 {
-			continue
+			break
 		}
 		elems = append(elems, list.elements[0])
 		list.elements = list.elements[1:]
@@ -61,7 +61,7 @@ func (list *List) RPop(count int) ([]string, bool) {
 	elems := []string{}
 	for n := 0; n < count; n++ {
 		if len(list.elements) < 1 {
-			continue
+			break
 		}
 		elems = append(elems, list.elements[len(list.elements)-1])
 		list.elements = list.elements[:len(list.elements)-1]
@@ -81,11 +81,15 @@ func (list *List) Range(start int, stop int) []string {
 	if stop < 0 {
 		stop = len(list.elements) + stop
 	}
+	// Clamps the range to the list so that the loop is bounded by its length.
+	if start < 0 {
+		start = 0
+	}
+	if (len(list.elements) - 1) < stop {
+		stop = len(list.elements) - 1
+	}
 	elems := []string{}
 	for n := start; n <= stop; n++ {
-		if (n < 0) || ((len(list.elements) - 1) < n) {
-			continue
-		}
 		elems = append(elems, list.elements[n])
 	}
 	return elems
